@@ -353,14 +353,30 @@ func cmdCheck(args []string) int {
 	swg.Wait()
 	// second chance: an obligation that ran out of time (machine load, solver
 	// luck) is retried alone with a long limit before it is reported
-	retryTo := 150 * time.Second
+	retryTo := 100 * time.Second
 	if *tier == "thorough" {
 		retryTo = 300 * time.Second
 	}
-	rsem := make(chan struct{}, 4)
+	rsem := make(chan struct{}, 8)
+	nretry := 0
+	nundef := 0
 	for _, oo := range outs {
+		if oo.Kind != "cover" && oo.File != "" && oo.Status != "unsat" && oo.Status != "sat" && oo.Status != "toolarge" && oo.Status != "" {
+			nundef++
+		}
+	}
+	for _, oo := range outs {
+		if nundef > 8 {
+			// a broad failure is not a load glitch: report without retrying
+			break
+		}
 		if oo.Kind == "cover" || oo.File == "" || oo.Status == "unsat" || oo.Status == "sat" || oo.Status == "toolarge" || oo.Status == "" {
 			continue
+		}
+		// bounded: a run in which dozens of obligations time out is not a load glitch
+		nretry++
+		if nretry > 8 {
+			break
 		}
 		swg.Add(1)
 		go func(oo *oblOut) {
@@ -368,7 +384,7 @@ func cmdCheck(args []string) int {
 			rsem <- struct{}{}
 			defer func() { <-rsem }()
 			first := oo.Status
-			res := solveObl(oo.File, oo.caseFiles, retryTo)
+			res := solveOblWith(oo.File, oo.caseFiles, retryTo, "z3-new,cvc5,z3-nlsat", "z3-new")
 			mu.Lock()
 			oo.Seconds += res.Seconds
 			if res.Status == "unsat" || res.Status == "sat" {
@@ -531,8 +547,13 @@ func cmdCheck(args []string) int {
 
 // solveObl races the plain query against a case analysis on its ite conditions.
 func solveObl(fname string, caseFiles []string, to time.Duration) solve.Result {
+	return solveOblWith(fname, caseFiles, to, "", "z3-new,z3")
+}
+
+// solveOblWith: `which` restricts the portfolio for the plain query, `whichCases` for the case files.
+func solveOblWith(fname string, caseFiles []string, to time.Duration, which, whichCases string) solve.Result {
 	if len(caseFiles) <= 1 {
-		return solve.Run(fname, to, "")
+		return solve.Run(fname, to, which)
 	}
 	type cr struct {
 		idx int
@@ -540,9 +561,9 @@ func solveObl(fname string, caseFiles []string, to time.Duration) solve.Result {
 	}
 	var res solve.Result
 	ch := make(chan cr, len(caseFiles)+1)
-	go func() { ch <- cr{-1, solve.Run(fname, to, "")} }()
+	go func() { ch <- cr{-1, solve.Run(fname, to, which)} }()
 	for ci, cname := range caseFiles {
-		go func(ci int, cname string) { ch <- cr{ci, solve.Run(cname, to, "")} }(ci, cname)
+		go func(ci int, cname string) { ch <- cr{ci, solve.Run(cname, to, whichCases)} }(ci, cname)
 	}
 	okCases := 0
 	var base *solve.Result
